@@ -221,6 +221,12 @@ func (b *Batch) Commit() error {
 	if err != nil {
 		return err
 	}
+	// 完成标识记录同样属于批处理的一部分, 需在提交返回前持久化
+	if b.options.Sync {
+		if err := b.db.activeFile.Sync(); err != nil {
+			return err
+		}
+	}
 
 	vhook.Point("commit.afterSeal")
 	b.staged = nil
